@@ -53,6 +53,10 @@ CLAIMED = {
          "accumulation, complete memo keys, no set-order escape, node identifiers used only as keys and equality operands in the evidence "
          "stages, twins, class-only labels. Tie-breaking among equally frequent alternatives is not analysed (the property allows it to vary)", "4 C09",
          "write-form and loop-totality lints over the evidence tables, memo-key lint, set-order dataflow, identifier-use lint over the value-flow graph, twin comparison (R-COUNT, R-LOOP, R-MEMO, R-DET, R-KEY, R-TWIN)"),
+ "C14": ("sibling agreement of every direct/inverse code pair modulo a role map (normalised AST comparison), agreement of the writer/reader "
+         "position constants, and direction plumbing (profile half -> statement flag -> serializer -> printed ^). Relative rules: necessary "
+         "conditions; equality with the reversed graph additionally needs C01's value-level part", "4 C14",
+         "clone/twin comparison of normalised ASTs under a role map, constant-table agreement, argument-agreement lints at construction sites (R-TWIN, R-CONST, R-PLUMB, R-EMIT)"),
 }
 NA_REASON = {
  "C08": "relates the outputs of different parsers (rdflib readers, two hand-written scanners, TSV splitter, decompressors) on "
